@@ -153,6 +153,7 @@ import MdIt.Lemmas.MemoSafeWindow
 import MdIt.Lemmas.MemoSafeWindow2
 import MdIt.Lemmas.MemoSafeLamFinal
 import MdIt.Lemmas.MemoSafeLamDoc
+import MdIt.Lemmas.MemoSafeLamBack2
 import MdIt.Props.InlineTotal
 
 namespace MdIt.Inline
@@ -392,13 +393,14 @@ example : entrySafe witnessCfg witness [(0, 0)] = false := by decide +kernel
    (K2) state invariant on (memo, cache): every unit memo entry `p ↦ p+1` with backticks at `p`, `p+1` has
         `p+1` in the CURRENT `inside_failed` — inductive: the cache only grows
         (`ruleBackticks_inside_mono`), and the step that makes the entry marks `p+1`
-        (`Lemmas/MemoSafeLamBack2.lean` when present: `back_decline_marks`, with run-complete marks
-        `InsideFull`, preserved under `NoCut` of the `pos_max` of the call — so `BackOK` needs a `NoCut`
+        (`Lemmas/MemoSafeLamBack2.lean`, proved: `back_decline_marks`, with run-complete marks
+        `InsideFull` / `insideFull_ruleBackticks`, preserved under `NoCut` of the `pos_max` of the call — so `BackOK` needs a `NoCut`
         premise, i.e. `Lemmas/MemoSafeLamTop.lean` / `MemoSafeLamNest.lean` re-threaded in copies);
    (K1) every state (look-ahead memo miss or real) whose position `k` is strictly inside a backtick run has
         `k` in `inside_failed` unless the backtick at `k-1` is escaped: the state came from the entry /
         token that ENDS at `k`; no token but the unit step at a backtick and the escape `\`` ends strictly
-        inside a run (`MemoSafeLamBack2.lean`, part C); needs `Just`, `TopInv`, `NF` extended by the
+        inside a run (`MemoSafeLamBack2.lean`, proved for the flat rules: `text_end_not_inside` …
+        `backticks_end_not_inside`, `escape_end_inside_iff`; still to do: a link / image token ends with `)` or `]`); needs `Just`, `TopInv`, `NF` extended by the
         position fact "`pos` is a walk start or the end of a memo entry / of the previous real token";
    (K3) an escape landing `p ↦ p+2` (`\`` followed by a backtick) has `p+2` NOT in `inside_failed`: no
         rule call ever happens at the escaped backtick `p+1`.  In nested frames this is the memo path;
